@@ -25,7 +25,9 @@ var c3Lead = []string{"appending", "available_externally", "common", "internal",
 	"swifttailcc", "x86_stdcallcc", "x86_fastcallcc", "arm_apcscc", "arm_aapcscc", "arm_aapcs_vfpcc", "msp430_intrcc", "x86_thiscallcc", "ptx_kernel", "ptx_device",
 	"spir_func", "spir_kernel", "intel_ocl_bicc", "x86_64_sysvcc", "win64cc", "x86_vectorcallcc", "hhvmcc", "hhvm_ccc", "x86_intrcc", "avr_intrcc", "avr_signalcc",
 	"amdgpu_vs", "amdgpu_gs", "amdgpu_ps", "amdgpu_cs", "amdgpu_kernel", "x86_regcallcc", "amdgpu_hs", "amdgpu_ls", "amdgpu_es", "aarch64_vector_pcs",
-	"aarch64_sve_vector_pcs", "amdgpu_gfx"}
+	"aarch64_sve_vector_pcs", "amdgpu_gfx",
+	// 63–68: the return attributes that are bare keywords (model: `kRetAttr`)
+	"inreg", "noalias", "nonnull", "noundef", "signext", "zeroext"}
 
 // the function attributes that are bare keywords, in the order of the model's list `Core3.kFuncAttr`
 var c3FuncAttr = []string{"alwaysinline", "argmemonly", "builtin", "cold", "convergent", "disable_sanitizer_instrumentation", "fn_ret_thunk_extern", "hot",
@@ -490,8 +492,10 @@ func core3Prepare(named map[string]*types.StructType, a []string) (*ir.Func, fun
 				fn.Visibility = asmenum.VisibilityFromString(kw)
 			case i < 18:
 				fn.DLLStorageClass = asmenum.DLLStorageClassFromString(kw)
-			default:
+			case i < 63:
 				fn.CallingConv = asmenum.CallingConvFromString(kw)
+			default:
+				fn.ReturnAttrs = append(fn.ReturnAttrs, asmenum.ReturnAttrFromString(kw))
 			}
 		}
 	}
